@@ -374,8 +374,9 @@ _descr = _pair('c11', 'descriptors', (300, 600), 'every source kind x 8 dtypes x
                replay=D + 'replay_descriptors', validate=D + 'replay_descriptors', shards=(4, 4))
 _reject = _pair('c11', 'window_reject', (120, 300), 'every source kind; from 0..1005, to 0..total', ['SourceDataWrapper.__init__'],
                 replay=D + 'replay_window_reject', validate=D + 'replay_window_reject')
-_rowcount = _pair('c11', 'rowcount', (120, 300), 'dict and HDF5 sources; row counts 1..50, different; either dataset first', ['SourceDataWrapper.__init__'],
+_rowcount = _pair('c11', 'rowcount', (120, 300), 'dict and HDF5 sources; row counts 1..50, different; either dataset first; F15 region excluded', ['SourceDataWrapper.__init__'],
                   replay=D + 'replay_rowcount', validate=D + 'replay_rowcount')
+_rowcount = _rowcount + [dict(fn=H + 'c11.kf_rowcount', kind='kf', timeout=(120, 120), replay=D + 'replay_rowcount', bounds='F15 region: other dataset longer than the first, or of one row')]
 _badsrc = _pair('c11', 'bad_source', (60, 120), 'unsupported dtype (int64/float16), 3-D dataset, missing dataset', ['SourceDataWrapper.determine_dtypes'],
                 replay=D + 'replay_bad_source', validate=D + 'replay_bad_source')
 _datadict = _pair('c11', 'data_dict', (120, 300), 'inline + passed data, extra and overlapping keys, 1..4 rows', ['LogicalFile._make_multi_frame_data'],
@@ -425,4 +426,94 @@ SPECS['C12'] = {
     + _find('C06', 'ob_fixed_int') + _find('C06', 'reach_fixed_int') + _find('C06', 'ob_uvari') + _find('C06', 'ob_ident_len')
     + _find('C06', 'ob_ascii_len') + _find('C06', 'ob_obname') + _find('C01', 'ob_sul_numbers') + _find('C09', 'ob_file_header_reject')
     + _find('C04', 'ob_item'),
+}
+
+SPECS['C13'] = {
+    'functions': ['FrameItem._compute_spacing_and_direction', 'FrameItem._setup_frame_params_from_data', 'FrameItem.setup_from_data',
+                  'NumericAttribute._convert_number', 'NumericAttribute._float_parser'],
+    'stubs': ['npvalues (value-level integer arrays: same-dtype wrapping diff, unique, median as exact fraction; the near-uniform '
+              'float tolerance test returns an arbitrary boolean)', 'FakeData (index array provider)', 'kint/kfloat'],
+    'cuts': CUTS, 'assumptions': CH_ASSUME,
+    'outside': ['the 0.001 squared-relative-tolerance branch and everything on float indices / NaN ordering (float kernels inside numpy): '
+                'where the code consults it, both outcomes are explored and nothing is asserted about the spacing',
+                'index arrays longer than 3 (spacing) / 4 (assignment) rows'],
+    'selftests': ['venv:vf.stubs.selftest:selftest_npvalues'],
+    'obligations': _pair('c13', 'spacing', (300, 600), '6 integer dtypes x 1..3 rows x all values of the dtype x both tolerance outcomes',
+                         ['FrameItem._compute_spacing_and_direction'], replay=D + 'replay_spacing', validate=D + 'replay_spacing', shards=(6, 6))
+    + [dict(fn=H + 'c13.wit_spacing_unsigned_decreasing', kind='witness', timeout=(60, 60), validate=D + 'replay_spacing')]
+    + _pair('c13', 'params', (300, 600), 'index type given or not x user-supplied min/max/spacing/direction or not x uniform or not x 1..4 rows x mode',
+            ['FrameItem._setup_frame_params_from_data'], replay=D + 'replay_params', validate=D + 'replay_params')
+    + _pair('c13', 'second_setup', (120, 120), 'no index type, same number of rows (F9 region excluded)', ['FrameItem._setup_frame_params_from_data'],
+            replay=D + 'replay_second_setup', validate=D + 'replay_second_setup')
+    + [dict(fn=H + 'c13.kf_second_setup', kind='kf', timeout=(120, 120), replay=D + 'replay_second_setup', bounds='F9 region: index type given or different row counts')],
+}
+
+ST = R + 'state:'
+_rename = _pair('c14', 'rename', (120, 300), 'new origin<2**30, rename or not, name lengths 1..255, as OBNAME and OBJREF; memo guards on',
+                ['EFLRItem.obname', 'EFLRItem.__setattr__', 'write_struct', 'write_struct_obname', 'write_struct_objref'],
+                replay=ST + 'replay_rename', validate=ST + 'replay_rename')
+_cachekey = _pair('c14', 'cache_key', (300, 600), 'every memoised function found by introspection x 7 codes x 13x13 values (1, 1.0, True, ...): keys equal => uncached results equal',
+                  ['write_struct', 'ushort'], replay=ST + 'replay_cache_key', validate=ST + 'replay_cache_key', shards=(4, 4))
+_idem = _pair('c14', 'idempotent', (400, 1500), 'every attribute signature (thorough: every site) x multiplicity x small values: encode twice', ['EFLRItem.make_item_body_bytes',
+              'ParameterItem._run_checks_and_set_defaults', 'ComputationItem._run_checks_and_set_defaults', 'ChannelItem._run_checks_and_set_defaults',
+              'DimensionedItem._check_or_set_value_dimensionality'], shards=(16, 16)) + [
+    dict(fn=H + 'c14.wit_idempotent_param_values', kind='witness', timeout=(60, 60), validate=PLAIN)]
+_rejected = _pair('c14', 'rejected', (300, 600), 'every item class x 4 rejection kinds (unknown keyword, bad origin type, bad attribute part, bad name type) x later same/other name',
+                  ['EFLRItem.__init__', 'EFLRSet.register_item', 'EFLRItem._compute_copy_number'], shards=(8, 8))
+_rejapi = _pair('c14', 'rejected_api', (120, 300), 'add_zone(bad domain), add_parameter(bad reference), add_channel(bad cast dtype), add_channel(bad data)',
+                ['LogicalFile.add_zone', 'LogicalFile.add_parameter', 'LogicalFile.add_channel'], replay=ST + 'replay_rejected_api', validate=ST + 'replay_rejected_api')
+_isol = _pair('c14', 'isolation', (400, 900), 'two logical files: zone set names from {None,A,B} (different), 6 interleavings of origin/zone additions, explicit/default second origin reference',
+              ['LogicalFile.add_origin', 'LogicalFile.add_zone', 'DLISFile.generator', 'EFLRSetsDict.get_or_make_set'], replay=ST + 'replay_isolation', validate=ST + 'replay_isolation') + [
+    dict(fn=H + 'c14.kf_isolation_shared', kind='kf', timeout=(300, 300), replay=ST + 'replay_isolation', bounds='F12 region: the same set class and name used in both logical files')]
+
+SPECS['C14'] = {
+    'functions': ['write_struct', 'ushort', 'EFLRItem.obname', 'EFLRItem.__setattr__', 'LRMeta.lr_type_struct', 'high_compatibility_mode',
+                  'LogicalFile._make_multi_frame_data', 'OriginItem.__init__', 'EFLRItem.make_item_body_bytes', 'FrameItem._setup_frame_params_from_data',
+                  'DimensionedItem._check_or_set_value_dimensionality'],
+    'stubs': ['StructShim', 'Rope', 'LenStr', 'memoisation guards (every lru-wrapped function of the package is wrapped to record mutable arguments)',
+              'npstub', 'nondeterministic RNG / clock'],
+    'cuts': CUTS, 'assumptions': CH_ASSUME,
+    'outside': ['an actual second OS process: the claim is per state carrier (memos, cached properties, class-level bytes, mode flag, merged data, '
+                'clock/RNG use, derived attributes), enumerated by introspection / listed in DESIGN appendix B',
+                'F9 region (derived frame/channel attributes persist across writes): known finding'],
+    'selftests': NP_SELF,
+    'obligations': _rename + _cachekey + _idem + _datadict + _find('C17', 'ob_context') + _find('C02', 'ob_lr_type')
+    + _find('C09', 'ob_origin_params') + _find('C13', 'ob_second_setup') + _find('C13', 'kf_second_setup'),
+}
+SPECS['C20'] = {
+    'functions': ['EFLRItem.__init__', 'EFLRSet.register_item', 'EFLRItem._compute_copy_number', 'EFLRItem.set_attributes', 'ChannelItem.__init__',
+                  'LogicalFile.add_channel', 'LogicalFile._get_unique_dataset_name', 'LogicalFile.add_zone', 'LogicalFile.add_parameter'],
+    'stubs': ['StructShim'], 'cuts': CUTS, 'assumptions': CH_ASSUME,
+    'outside': ['a write that fails after the data-dependent set-up ran, then succeeds: same carrier as F9 (known finding)',
+                'an empty set object created for a rejected first object stays registered; it yields no record (C09 O9.4)'],
+    'selftests': [],
+    'obligations': _rejected + _rejapi + _idem + _find('C13', 'kf_second_setup'),
+}
+SPECS['C18'] = {
+    'functions': ['LogicalFile.add_origin', 'LogicalFile.add_zone', 'DLISFile.generator', 'DLISFile.add_logical_file', 'EFLRSetsDict.get_or_make_set',
+                  'EFLRSetsDict.try_add_set', 'MultiFrameData.__next__', 'MultiFrameData.__iter__'],
+    'stubs': NP_STUBS, 'cuts': CUTS, 'assumptions': CH_ASSUME,
+    'outside': ['more than two frames / two logical files', 'F12 region: the same (set class, set name) in two logical files is one shared set object: known finding'],
+    'selftests': NP_SELF,
+    'obligations': _isol + _twofr,
+}
+
+SPECS['C05'] = {
+    'functions': ITEM_FUNCS + ['EFLRItem.set_attributes', 'AttrSetup.items', 'ChannelItem._run_checks_and_set_defaults',
+                               'OriginItem._run_checks_and_set_defaults', 'ParameterItem._run_checks_and_set_defaults',
+                               'ComputationItem._run_checks_and_set_defaults', 'write_struct_dtime', 'convert_maybe_numeric'],
+    'stubs': ['StructShim', 'Rope', 'LenStr', 'FakeDT', 'kint/kfloat (lemma K4)', 'ksetattr'], 'cuts': SPECS['C04']['cuts'],
+    'assumptions': CH_ASSUME + SMT_ASSUME,
+    'outside': ['FSINGL/FDOUBL bit patterns (struct.pack float kernels): float values are concrete examples',
+                'datetime.strptime parsing of date strings and the local-time interpretation of naive datetimes (C library / environment)',
+                'fully symbolic text longer than 2-3 characters (longer text: abstract content with symbolic length, C06)',
+                'quick tier: one representative attribute per signature; thorough: all 169 sites'],
+    'selftests': ['venv:vf.stubs.selftest:selftest_rope_struct', 'real:vf.stubs.selftest:selftest_tokens_vs_strict'],
+    'obligations': _find('C04', 'ob_item') + _find('C04', 'reach_item')
+    + _pair('c05', 'routes', (200, 400), 'keyword / dict / AttrSetup / later assignment + unknown attribute + unknown part; symbolic ASCII text len<=3; units on/off',
+            ['EFLRItem.set_attributes', 'Attribute.value', 'Attribute.units'])
+    + _pair('c05', 'defaults', (120, 300), 'channel / origin / parameter / computation from symbolic assigned-or-not state, dimension and limit 1..2**20',
+            ['ChannelItem._run_checks_and_set_defaults', 'OriginItem._run_checks_and_set_defaults', 'ParameterItem._run_checks_and_set_defaults'])
+    + _find('C06', 'ob_dtime') + _find('C06', 'reach_dtime') + _find('C06', 'k3_dtime_ms') + _find('C04', 'k4_int_is_integer')
+    + _find('C06', 'ob_text_content') + _find('C06', 'ob_ascii_len') + _find('C07', 'ob_identity'),
 }
